@@ -179,6 +179,12 @@ def consistency(ctx, tw, dim, k, sc):
         Ek = (tw * k).exp().A
         d = md(Ek, E)
         ctx.judge('consistency', d <= TOL * sc, dict(sig, kind='scalar_multiple_inconsistent'), lambda: '(S*k).exp() differs from S.exp(k) by %.3g for S=%s k=%r' % (d, Sv, k))
+        # no theta given: the twist is exponentiated as it stands, whatever unit is named for a theta that is not there
+        for kw_ in (dict(units='deg'), dict(theta=None, units='deg'), dict(units='rad')):
+            Eu = (tw * k).exp(**kw_).A
+            du = md(Eu, Ek)
+            ctx.judge('consistency', du <= TOL * sc, dict(sig, kind='units_without_theta_change_the_motion'),
+                      lambda: '(S*k).exp(%s) differs from (S*k).exp() by %.3g for S=%s k=%r' % (kw_, du, Sv, k))
         want = ref.f64(ref.exp_twist_ld(Sv * k))
         d2 = md(E, want)
         ctx.judge('consistency', d2 <= TOL * sc, dict(sig, kind='exp_wrong'), lambda: 'S.exp(k) differs from the reference exponential by %.3g for S=%s k=%r' % (d2, Sv, k))
@@ -415,7 +421,7 @@ def run(ctx):
     for _ in range(ctx.scale(1200, 30000)):
         a = gen.axis(rng)
         q = gen.vec(rng, 3, 1e-3, 1e3) if rng.random() < 0.85 else np.zeros(3)
-        nv = 1 if rng.random() < 0.7 else int(rng.integers(2, 5))
+        nv = 1 if rng.random() < 0.7 else int(rng.integers(2, 8))
         p = dict(a=a, q=q, thetas=[thetas(rng) for _ in range(nv)], units=['rad', 'deg'][rng.integers(2)],
                  lam=[0.0, float(rng.uniform(-5, 5)), float(gen.sign(rng) * gen.logu(rng, 1e-3, 1e3))], off=gen.vec(rng, 3, 1e-3, 1e3),
                  aslist=bool(rng.integers(2)))
@@ -437,14 +443,14 @@ def run(ctx):
         if ctx.ncases % 499 == 1:
             ctx.sample(dict(case='rev3', **p), limit=4)
     for _ in range(ctx.scale(400, 8000)):
-        n = int(rng.integers(1, 5))
+        n = int(rng.integers(1, 8))
         if rng.random() < 0.1:
             n = int([8, 9, 16, 17, 32, 33, 40, 64, 100][rng.integers(9)])        # many values (a batch path would show here)
         k = [2, 3, -1, -2][rng.integers(4)] if rng.random() < 0.4 else float(thetas(rng))
         drive(RUNNERS, ctx, 'multi3', dict(kinds=['R' if rng.random() < 0.75 else 'P' for _ in range(n)], axes=[gen.axis(rng) for _ in range(n)],
                                             pts=[gen.vec(rng, 3, 1e-3, 1e3) for _ in range(n)], k=k, thetas=[float(thetas(rng)) for _ in range(n)]))
     for _ in range(ctx.scale(300, 6000)):
-        n = int(rng.integers(2, 5))
+        n = int(rng.integers(2, 8))
         if rng.random() < 0.1:
             n = int([8, 9, 16, 17, 32, 33, 40, 64, 100][rng.integers(9)])        # many values (a batch path would show here)
         kinds = ['R' if rng.random() < 0.65 else 'P' for _ in range(n)]
@@ -459,10 +465,10 @@ def run(ctx):
         n = 6 if dim == 3 else 3
         drive(RUNNERS, ctx, 'zero', dict(dim=dim, S1=gen.vec(rng, n, 1e-2, 1e2), S2=gen.vec(rng, n, 1e-2, 1e2)))
     for _ in range(ctx.scale(500, 10000)):
-        nv = 1 if rng.random() < 0.7 else int(rng.integers(2, 5))
+        nv = 1 if rng.random() < 0.7 else int(rng.integers(2, 8))
         drive(RUNNERS, ctx, 'pris3', dict(a=gen.axis(rng), thetas=[thetas(rng) for _ in range(nv)]))
     for _ in range(ctx.scale(900, 20000)):
-        nv = 1 if rng.random() < 0.7 else int(rng.integers(2, 5))
+        nv = 1 if rng.random() < 0.7 else int(rng.integers(2, 8))
         if rng.random() < 0.6:
             drive(RUNNERS, ctx, '2d', dict(which='Revolute', q=gen.vec(rng, 2, 1e-3, 1e3), thetas=[thetas(rng) for _ in range(nv)],
                                            units=['rad', 'deg'][rng.integers(2)], asarray=bool(rng.integers(2))))
